@@ -18,6 +18,9 @@ enum {
   QF_ALTERNATE,    // max / min alternating
   QF_SINGLEMAX,    // one maximal term, others zero
   QF_NEARMULT,     // t*q - 1 and t*q*2^j - 1: just below multiples of the primes
+  QF_WORD32,       // every word below 2^32 (32-bit data in 64-bit lanes), uniformly: half of them have bit 31 set
+  QF_WORD32MAX,    // every word 2^32 - 1
+  QF_MIXEDWIDTH,   // per element: all four words below 2^16, below 2^32, below 2^48 or full width
   QF_N
 };
 extern const char* const q120_fam_name[QF_N];
